@@ -568,6 +568,28 @@ class Emit:
                 raise AnalysisError("too many paths in an emitting method")
             for i, st in enumerate(seq):
                 rest = seq[i + 1:]
+                if isinstance(st, (ast.Expr, ast.Assign)):
+                    # `E[a if flag else b]` with a plain local as the test is `if flag: E[a]` / `else: E[b]`
+                    ife = next((n for n in ast.walk(st) if isinstance(n, ast.IfExp) and isinstance(
+                        n.test.operand if isinstance(n.test, ast.UnaryOp) and isinstance(n.test.op, ast.Not) else n.test, ast.Name)), None)
+                    if ife is not None:
+                        import copy as _copy
+
+                        class Pick(ast.NodeTransformer):
+                            def __init__(self, arm):
+                                self.arm = arm
+
+                            def visit_IfExp(self, node):
+                                if ast.dump(node) == ast.dump(ife):
+                                    return _copy.deepcopy(node.body if self.arm else node.orelse)
+                                return self.generic_visit(node)
+                        a = Pick(True).visit(_copy.deepcopy(st))
+                        b = Pick(False).visit(_copy.deepcopy(st))
+                        new_if = ast.If(test=_copy.deepcopy(ife.test), body=[a], orelse=[b])
+                        ast.copy_location(new_if, st)
+                        ast.fix_missing_locations(new_if)
+                        run([new_if] + rest, acc)
+                        return
                 if isinstance(st, ast.If):
                     pre = events_of_expr(st.test)
                     for br, tr in ((st.body, True), (st.orelse, False)):
@@ -738,10 +760,24 @@ def rule_t3(chk: Check, C: Classes):
                     bad["flag"] = "not keyed on is_loop"
             # default actions
             dflt = {}
-            for n in ast.walk(fn):
-                if isinstance(n, ast.Assign) and norm_stmt(n.targets[0]) == "action" and isinstance(n.value, ast.JoinedStr):
-                    conds = _returned_under(fn, n.value)
-                    dflt[Emit.tmpl(n.value)] = {c for c in conds}
+            # the synthesised action is assigned in print_action itself or returned by a method it calls for it
+            holders = [fn]
+            for c in ast.walk(fn):
+                if isinstance(c, ast.Call) and isinstance(c.func, ast.Attribute) and isinstance(c.func.value, ast.Name) and c.func.value.id == "self":
+                    rr = C.resolve(g, c.func.attr)
+                    if rr is not None and c.func.attr not in ("print", "add_return", "visit") and rr[2] not in holders:
+                        holders.append(rr[2])
+            for h in holders:
+                for n in ast.walk(h):
+                    v = None
+                    if isinstance(n, ast.Assign) and norm_stmt(n.targets[0]) == "action" and isinstance(n.value, ast.JoinedStr):
+                        v = n.value
+                    elif isinstance(n, ast.Return) and isinstance(n.value, ast.JoinedStr) and h is not fn:
+                        v = n.value
+                    if v is not None:
+                        conds = set(_returned_under(h, v))
+                        # guard clauses before it: `if c: return ...` earlier in the same block means `not c` here
+                        dflt.setdefault(Emit.tmpl(v), set()).update(conds)
             want = {"[{self.local_variable_names[0]}] + {self.local_variable_names[1]}": ("is_gather", True),
                     "{self.local_variable_names[0]}": ("len(self.local_variable_names) == 1", True),
                     "[{', '.join(self.local_variable_names)}]": None}
@@ -1144,7 +1180,10 @@ def rule_t6(chk: Check, C: Classes):
     chk.count(R)
     if fn is None:
         raise AnalysisError("compute_left_recursives vanished")
-    src = [norm_stmt(s) for s in ast.walk(fn) if isinstance(s, ast.stmt)]
+    # the search may live in compute_left_recursives itself or in a module-level helper it calls
+    called = {c.func.id for c in ast.walk(fn) if isinstance(c, ast.Call) and isinstance(c.func, ast.Name)}
+    scope = [fn] + [n for n in _parse(rel2).body if isinstance(n, ast.FunctionDef) and n.name in called]
+    src = [norm_stmt(s) for f_ in scope for s in ast.walk(f_) if isinstance(s, ast.stmt)]
     narrow = {"leaders -= scc - set(cycle)", "leaders &= set(cycle)", "leaders = leaders & set(cycle)", "leaders.intersection_update(cycle)",
               "leaders.intersection_update(set(cycle))", "leaders = leaders - (scc - set(cycle))", "leaders -= set(scc) - set(cycle)"}
     init = {"leaders = set(scc)", "leaders: Set[str] = set(scc)", "leaders = set(scc.copy())", "leaders = scc.copy()"}
@@ -1152,10 +1191,13 @@ def rule_t6(chk: Check, C: Classes):
                 "the leader of a left-recursive component must lie on every cycle: candidates start as the whole component and are "
                 "intersected with each cycle found")
     chk.count(R)
-    marks = [s for s in src if s in ("rules[name].left_recursive = True",)]
-    chk.require(len(marks) >= 2 and "rules[leader].leader = True" in src and "rules[name].leader = True" in src, R,
-                "compute_left_recursives:marks", f"{rel2}:{fn.lineno}",
-                "every member of a component of size > 1, and every rule with a self-edge, is marked left-recursive; one leader per component")
+    import re as _re
+    lr = [s for s in src if _re.fullmatch(r"rules\[.+\]\.left_recursive = True", s)]
+    ld = [s for s in src if _re.fullmatch(r"rules\[.+\]\.leader = True", s)]
+    picks = [s for s in src if _re.fullmatch(r"(leader = |return )min\(leaders\)", s)]
+    chk.require(len(lr) >= 2 and len(ld) >= 2 and len(picks) == 1, R, "compute_left_recursives:marks", f"{rel2}:{fn.lineno}",
+                f"every member of a component of size > 1, and every rule with a self-edge, is marked left-recursive; one leader per component, "
+                f"the least of the candidates: {lr} {ld} {picks}")
     fn = next((n for n in _parse(rel2).body if isinstance(n, ast.FunctionDef) and n.name == "make_first_graph"), None)
     chk.count(R)
     if fn is None:
